@@ -34,13 +34,14 @@ class SyncWorld:
 
     def __init__(self, server_kwargs=None, behaviour=None, sync_handlers=True,
                  handlers=('connect', 'message', 'disconnect'), app_kwargs=None,
-                 legacy_disconnect=False, websocket=True, trace_funcs=None):
+                 legacy_disconnect=False, websocket=True, trace_funcs=None, shared=None):
         import engineio
-        self.clock = vclock.VClock()
+        self.shared = shared
+        self.clock = shared.clock if shared else vclock.VClock()
         vclock.set_current(self.clock)
         vclock.install()
         vclock.install_secrets()
-        self.sched = vthreads.Sched(self.clock)
+        self.sched = shared.sched if shared else vthreads.Sched(self.clock)
         if trace_funcs:
             self.sched.trace_funcs = set(trace_funcs)
         self.log = base.QuietLogger()
@@ -77,7 +78,7 @@ class SyncWorld:
         self.wss = []
         self.calls = []
         self.vts = {}
-        self.nstep = 0
+        self._nstep = 0
         self._install_handlers(handlers, legacy_disconnect)
 
     # ------------------------------------------------------------ handlers
@@ -134,6 +135,17 @@ class SyncWorld:
             self.server.on('disconnect', on_disconnect)
 
     # ------------------------------------------------------------- stepping
+    @property
+    def nstep(self):
+        return self.shared.nstep if self.shared else self._nstep
+
+    @nstep.setter
+    def nstep(self, v):
+        if self.shared:
+            self.shared.nstep = v
+        else:
+            self._nstep = v
+
     @property
     def now(self):
         return self.clock.now
@@ -261,6 +273,8 @@ class SyncWorld:
                 req.step_done = w.nstep
                 if not w.sched.killing:
                     req.done = True
+                    for cb in getattr(req, 'on_done', []):
+                        cb()
         self.vts[req] = self.sched.spawn(worker, 'req%d' % req.rid, 'env')
         return req
 
@@ -304,6 +318,8 @@ class SyncWorld:
                         ws.server_closed = True
                         ws.t_server_closed = w.clock.now
                     ws.done = True
+                    for cb in getattr(ws, 'on_event', []):
+                        cb()
         self.vts[ws] = self.sched.spawn(worker, 'ws%d' % ws.rid, 'env')
         return ws
 
@@ -345,6 +361,27 @@ class SyncWorld:
         self.vts[c] = self.sched.spawn(worker, 'call%d' % c.cid, 'env')
         return c
 
+    def call_seq(self, name, arglist):
+        c = Call(len(self.calls), name + '*%d' % len(arglist), arglist)
+        self.calls.append(c)
+        w = self
+
+        def worker():
+            try:
+                w.sched.point('api')
+                for a in arglist:
+                    getattr(w.server, name)(*a)
+            except vthreads.Unwind:
+                raise
+            except Exception as e:
+                c.exc = {'type': type(e).__name__, 'text': str(e)[:200], 'site': site_of_tb(e.__traceback__)}
+            finally:
+                c.step_done = w.nstep
+                if not w.sched.killing:
+                    c.done = True
+        self.vts[c] = self.sched.spawn(worker, 'callseq%d' % c.cid, 'env')
+        return c
+
     # ----------------------------------------------------------- inspection
     def blocked_site(self, handle):
         vt = self.vts.get(handle)
@@ -375,7 +412,8 @@ class SyncWorld:
     def teardown(self):
         vclock.set_current(self.clock)
         self.server.handlers = {}
-        self.sched.kill()
+        if not self.shared:
+            self.sched.kill()
         self.vts.clear()
 
 
@@ -395,6 +433,8 @@ class VWebSocket:
         self.peer.accepted = True
         self.peer.step_accept = self.world.nstep
         self.peer.conn = self
+        for cb in getattr(self.peer, 'on_event', []):
+            cb()
         return self.handler(self)
 
     def wait(self):
@@ -421,6 +461,8 @@ class VWebSocket:
             p.lost.append(message)
         else:
             p.frames.append((self.world.clock.now, self.world.nstep, message))
+            for cb in getattr(p, 'on_event', []):
+                cb()
 
     def close(self):
         self.world.sched.point('ws.close')
@@ -428,3 +470,5 @@ class VWebSocket:
             self.closed_local = True
             self.peer.server_closed = True
             self.peer.t_server_closed = self.world.clock.now
+            for cb in getattr(self.peer, 'on_event', []):
+                cb()
